@@ -243,6 +243,14 @@ def _shifted(case):
     return c
 
 
+def _nan_mode(case):
+    import json
+    import zlib
+
+    k = zlib.crc32(("nan" + json.dumps(case, sort_keys=True, default=str)).encode()) % 8
+    return "sparse" if k in (0, 1) else "all" if k == 2 else None
+
+
 def check_case(case):
     from skgenome import GenomicArray
 
@@ -253,8 +261,20 @@ def check_case(case):
     def bad(clause, detail):
         out.append({"clause": clause, "detail": f"{detail}; A={[r[:4] for r in A['rows'][:8]]} Q={[r[:3] for r in Q['rows'][:8]]} index={case['index']}"})
 
-    ga = GenomicArray(_frame(A, case["index"]))
-    gq = GenomicArray(_frame(Q, [0, 1]))
+    # some float values arrive missing (NaN): sparse on a quarter of the cases, the whole column on an eighth - a pure
+    # function of the case (seeded change C07i took "only NaN hits" for "no hit")
+    nan_mode = _nan_mode(case)
+    if nan_mode:
+        A = dict(A, rows=[r[:5] + [float("nan")] + r[6:] if nan_mode == "all" or (r[3] * 7 + len(A["rows"])) % 3 == 0 else r
+                          for r in A["rows"]])
+    fa, fq = _frame(A, case["index"]), _frame(Q, [0, 1])
+    # start/end arrive as int64, int32, unsigned or float64 columns
+    for df, T, salt in ((fa, A, "A"), (fq, Q, "Q")):
+        dt = gen.coord_dtype(case, T, salt)
+        if dt != "int64":
+            df[["start", "end"]] = df[["start", "end"]].astype(dt)
+    ga = GenomicArray(fa)
+    gq = GenomicArray(fq)
     a_by = _rows_by_chrom(A)
     rid2row = {r[3]: r for r in A["rows"]}
     before = ga.data.copy()
@@ -328,7 +348,7 @@ def check_case(case):
             if summ == "none":
                 func = None
             elif summ == "callable":
-                func = (lambda ser: "<" + "|".join(sorted(ser)) + ">") if col == "gene" else (lambda ser: float(ser.max()) + 1000.0)
+                func = (lambda ser: "<" + "|".join(sorted(ser)) + ">") if col == "gene" else (lambda ser: float(len(ser)) * 10.0 + float(ser.isna().sum()))
             else:
                 func = "CONST" if col == "gene" else 7.25
             dflt = default if col == "gene" else -1.0
@@ -351,9 +371,11 @@ def check_case(case):
                                 seen.append(v)
                         exp.append([",".join(seen)])
                     else:
-                        exp.append([float(np.median(vals))])
+                        # "median of floating-point numbers": of the values present (all missing -> missing)
+                        real = [v for v in vals if v == v]
+                        exp.append([float(np.median(real)) if real else float("nan")])
                 elif summ == "callable":
-                    exp.append(["<" + "|".join(sorted(vals)) + ">"] if col == "gene" else [float(max(vals)) + 1000.0])
+                    exp.append(["<" + "|".join(sorted(vals)) + ">"] if col == "gene" else [len(vals) * 10.0 + sum(1 for v in vals if v != v)])
                 else:
                     exp.append([func])
             ok = len(got) == len(exp) and all(any(_same(g, x) for x in xs) for g, xs in zip(got, exp))
@@ -368,6 +390,8 @@ def _same(a, b):
     if isinstance(a, str) or isinstance(b, str):
         return a == b
     try:
+        if float(a) != float(a) or float(b) != float(b):
+            return float(a) != float(a) and float(b) != float(b)
         return abs(float(a) - float(b)) <= 1e-12 * max(1.0, abs(float(b)))
     except (TypeError, ValueError):
         return False
